@@ -252,6 +252,20 @@ func sameDims(a, b []int) bool {
 }
 
 // checkTensor asserts shape and element-wise equality against a flat reference.
+// checkTensorS is checkTensor with a per-element magnitude scale for the native tolerance (vrt.AssertEqFS).
+func checkTensorS(label string, t T, dims []int, want, scale []float64) {
+	if t == nil || !sameDims(vrt.Dims(t), dims) || len(vrt.Flat(t)) != len(want) {
+		checkTensor(label, t, dims, want)
+		return
+	}
+	f := vrt.Flat(t)
+	for k := range f {
+		vrt.AssertEqFS(label, f[k], want[k], scale[k])
+	}
+}
+
+func absF(x float64) float64 { return vrt.IteF(x >= 0, x, -x) }
+
 func checkTensor(label string, t T, dims []int, want []float64) {
 	if t == nil {
 		vrt.Assert(label+": non-nil", false)
